@@ -7,7 +7,7 @@ from engine.world import Excluded, World, task_outcome
 
 ID = "C12"
 CLAUSES = {
-    1201: "sibling / later requests did not proceed exactly as in the fault-free twin run",
+    1201: "other tasks / sibling / later requests did not proceed exactly as in the fault-free twin run",
     1202: "capacity lost or gained after a fault: an N-sized pool did not run exactly N of N+1 new tasks",
     1203: "flush()/gather_and_close(return_exceptions=False) raised something that is not an injected exception",
     1204: "flush()/gather_and_close(return_exceptions=True) raised",
@@ -33,7 +33,9 @@ def _run(fault, size, kf, cb, fk, fi, c1, b1, c2, b2, c3, b3, fin, rx, tag):
         itS.reqs = itF.reqs  # one numbering of requests
 
         def obs():
-            s = [(x["state"], x["args"]) for x in w.W if x["req"] in (1, 2)]
+            # every task's progress, those of the faulty request included; only the faulted worker's own outcome
+            # ('failed' instead of 'ok') is allowed to differ from the twin run
+            s = [("ok" if x["state"] == "failed" else x["state"], x["args"], x["req"]) for x in w.W]
             res["obs"].append((tuple(s), pool.num_running, pool.num_cancelled, w.live))
         try:
             raising = (fi,) if (fault and fk == 1) else ()
